@@ -169,10 +169,19 @@ PROPS['C04'] = dict(
          '(3 conversions x 3 type renderings x 29 hook programs); the value handed out compared; invariant evaluated by the oracle on every value',
 )
 # ------------------------------------------------------------------ C05
+def c05_builders():
+    for ns in ['', '/', '//', '///', 'g', '/g/']:
+        for nm in ['n', 'g:a', '']:
+            yield f'B t 3 {gens.hx(nm)} S:{gens.hx(ns)}'
+            yield f'B t 3 {gens.hx(nm)} S:{gens.hx("org")},S:{gens.hx(ns)}'
+    for k in 'gt':
+        ty = '0' if k == 't' else gens.hx('t')
+        for r in ['sha1:0', 'sha1', 'sha1:zz', 'sha1:00,SHA1:11', 'sha1:00,', ',', '']:
+            yield f'B {k} {ty} {gens.hx("n")} Q:{gens.hx("checksum")}:{gens.hx(r)}'
 PROPS['C05'] = dict(
-    accepts=lambda c: c[0] in 'PSX' and kind_of(c) in 'gt',
+    accepts=lambda c: (c[0] in 'PSX' and kind_of(c) in 'gt') or (c[0] == 'B' and kind_of(c) in 'gt'), corpus=True,
     gen=lambda tier, rng: chain(gens.gen_fault(rng, Q(tier, 60000, 600000)), gens.gen_utf8(Q(tier, 3, 4), ('g',)), gens.gen_slot(('g', 't')), gens.gen_tok(Q(tier, TOK_Q, TOK_T), ('g', 't')), gens.gen_corpus(rng, Q(tier, 3000, 50000), ('g', 't')),
-                                gens.gen_spell(rng, Q(tier, 5000, 50000))),
+                                gens.gen_spell(rng, Q(tier, 5000, 50000)), c05_builders()),
     project=both(err_class),
     rule='legal spellings with exactly one injected fault of each listed kind (13 kinds, every spelling of the fault incl. 12 invalid UTF-8 patterns) with the expected error carried; '
          'exhaustive percent-encoded byte sequences of length <= 3 (thorough 4) over the 27 boundary bytes of the UTF-8 table in four component positions; token language; corpus mutations; acceptance / error variant compared in both directions',
@@ -242,11 +251,29 @@ def c08_gen(tier, rng):
         for ns in ['', '/', '//', 'a', 'a//b', '/a/']:
             for nm in ['n', 'A_.-b', 'Æǅ', '']:
                 yield f'B t {i} {gens.hx(nm)} S:{gens.hx(ns)}'
+    # qualifiers the ecosystems know (and plausible values): untouched by every type, from parser and builder alike
+    WK = [('type', 'jar'), ('type', 'JAR'), ('type', 'pom'), ('Type', 'jar'), ('classifier', 'sources'), ('platform', 'java'), ('platform', 'ruby'), ('file_name', 'X.whl'),
+          ('repository_url', 'https://R.example/x'), ('download_url', 'https://d.example/A.tgz'), ('vcs_url', 'git+https://e.x/r.git@V1'), ('arch', 'x86_64'), ('checksum', 'sha1:AABB')]
+    for i, ty in enumerate(gens.SEVEN):
+        for k, v in WK:
+            for rest in ['g/Name_.x@V1.0', 'Name']:
+                sfx = '#Sub/Path' if rest != 'Name' else ''
+                yield from pairs([f'P t {gens.hx("pkg:" + ty + "/" + rest + "?" + k + "=" + v + sfx)}'])
+            yield f'B t {i} {gens.hx("Name_.x")} S:{gens.hx("g")},V:{gens.hx("V1.0")},Q:{gens.hx(k)}:{gens.hx(v)}'
+            yield f'B t {i} {gens.hx("n")} S:{gens.hx("g")},Q:{gens.hx(k)}:{gens.hx(v)},Q:{gens.hx("os")}:{gens.hx("L")}'
+        for vv in ['V1.0-Beta', 'vv1', 'Vv2', '1.0/', ' 1 ']:
+            yield from pairs([f'P t {gens.hx("pkg:" + ty + "/g/Name@" + vv)}'])
+            yield f'B t {i} {gens.hx("Name")} S:{gens.hx("g")},V:{gens.hx(vv)}'
+    # the combined-name entry point applies the same name rule
+    for c in gens.gen_comb(rng, Q(tier, 2000, 20000)):
+        yield c
 def c08_compare_factory():
     st = {}
     def view(side, c, line):
         """(typed type+name or error class, relation of the typed parse to the type-agnostic parse of the same string)"""
         a = c.split(' '); m = main(line)
+        if a[0] == 'N':                       # combined-name entry point: the built name (third field of the line) or the refusal
+            f = line.split('|'); return (('N', f[3] if len(f) > 3 else f[-1]), None)
         if a[0] == 'P' and a[1] == 'g':
             st[side] = (a[-1], m); return None
         f = fields(m)
@@ -276,7 +303,7 @@ def c08_compare_factory():
     cmp.obs = lambda c, a: None if c.startswith('P g') else main(a)[:200]
     return cmp
 PROPS['C08'] = dict(
-    accepts=lambda c: c[0] in 'PSB' and kind_of(c) == 't',
+    accepts=lambda c: (c[0] in 'PSB' and kind_of(c) == 't') or c[0] == 'N',
     gen=c08_gen, compare=c08_compare_factory(),
     rule='names: every string of length <= 4 (thorough 5) over {a A 1 - _ . AE-ligature titlecase-dz}, single scalar values (quick: Latin/Greek/Cyrillic/extended blocks, '
          'all special cases and 3000 random; thorough: all 1.1M) through parser and builder for nuget, pypi, cargo; typed vs type-agnostic parse of the same string; '
@@ -329,9 +356,33 @@ def c12_purls(rng, n):
         ops = '+'.join(f'i.{gens.hx(gens.rcase(rng, a) if a.isascii() else a)}.{b.hex() or "-"}' for a, b in rng.sample(list(cs.items()), len(cs)))
         yield f'B g {gens.hx("t")} {gens.hx("n")} C:{ops}'
         yield f'Q tC:{ops},tG'
+def c12_builders(rng, n):
+    raws = ['sha1:aabb,md5:01fe', 'SHA1:AABB,MD5:01FE', 'Sha1:aAbB,mD5:01fE', 'md5:00', 'b:00,a:ff', 'sha1:00,', 'sha1:', 'a:0', 'sha3-256:aa,sha3:bb', 'md5:,sha1:01']
+    typed = ['i.' + gens.hx('sha1') + '.00', 'i.' + gens.hx('SHA256') + '.abcd+i.' + gens.hx('md5') + '.11', 'i.' + gens.hx('MD5') + '.01fe', 'w.' + gens.hx('Sha1') + '.' + gens.hx('AAbb'),
+             'i.' + gens.hx('sha1') + '.-', '-']
+    keys = ['checksum', 'Checksum', 'CHECKSUM']
+    for k in 'gstbo':
+        ty = '0' if k == 't' else gens.hx('t')
+        seqs = []
+        for r in raws:
+            seqs.append(f'Q:{gens.hx(rng.choice(keys))}:{gens.hx(r)}')
+            seqs.append(f'D:{gens.hx("checksum")}:{gens.hx(r)}')
+            for t in typed:
+                seqs.append(f'Q:{gens.hx(rng.choice(keys))}:{gens.hx(r)},C:{t}')
+                seqs.append(f'C:{t},Q:{gens.hx(rng.choice(keys))}:{gens.hx(r)}')
+        for t1 in typed:
+            for t2 in typed:
+                seqs.append(f'C:{t1},C:{t2}')
+            seqs.append(f'C:{t1},c'); seqs.append(f'c,C:{t1}'); seqs.append(f'C:{t1},q:{gens.hx("CheckSum")}')
+        for sq in seqs:
+            yield f'B {k} {ty} {gens.hx("n")} {sq}'
+    for t1 in typed:
+        for t2 in typed:
+            yield f'Q tC:{t1},tC:{t2},tG'
+            yield f'Q i:{gens.hx("checksum")}:{gens.hx("md5:00")},tC:{t1},tG,g:{gens.hx("checksum")}'
 PROPS['C12'] = dict(
     accepts=lambda c: c[0] in 'CcPSBQ',
-    gen=lambda tier, rng: chain(gens.gen_cs(rng, Q(tier, 30000, 400000)), c12_purls(rng, Q(tier, 10000, 100000)), gens.gen_slot(('g',))),
+    gen=lambda tier, rng: chain(gens.gen_cs(rng, Q(tier, 30000, 400000)), c12_purls(rng, Q(tier, 10000, 100000)), gens.gen_slot(('g',)), c12_builders(rng, 0)),
     compare=c12_compare,
     rule='checksum operation sequences (insert / insert_raw / remove over 15 algorithm spellings incl. case variants, titlecase letters, empty and non-ASCII), texts, '
          'PURLs and builders carrying the same entry set in random order and case; entries, canonical text, parse-back and typed decode compared; '
